@@ -34,6 +34,26 @@ impl Read for Frag<'_> {
     }
 }
 
+/// source whose every third read call is "interrupted" (EINTR): read_exact has to retry those
+struct Stutter<'a> {
+    data: &'a [u8],
+    pos: usize,
+    calls: usize,
+    chunk: usize,
+}
+impl Read for Stutter<'_> {
+    fn read(&mut self, buf: &mut [u8]) -> Result<usize, Error> {
+        self.calls += 1;
+        if self.calls % 3 == 2 {
+            return Err(Error::from(ruzstd::io::ErrorKind::Interrupted));
+        }
+        let n = buf.len().min(self.chunk.max(1)).min(self.data.len() - self.pos);
+        buf[..n].copy_from_slice(&self.data[self.pos..self.pos + n]);
+        self.pos += n;
+        Ok(n)
+    }
+}
+
 /// sink accepting `per_call` bytes per write
 struct SlowSink {
     out: Vec<u8>,
@@ -212,6 +232,20 @@ fn decode_ops(item: &str, frame: &[u8], pattern: &[usize], expect_len: usize) {
             }
         }
         Ok(format!("data={:016x} len={} consumed={}", fnv(&sink.out), sink.out.len(), dec.bytes_read_from_source()))
+    })));
+    // a source that reports EINTR now and then: std's read_exact retries, the crate's own must too
+    report(item, "decode_blocks:interrupting_reader", catch_unwind(AssertUnwindSafe(|| {
+        let mut dec = FrameDecoder::new();
+        let mut src = Stutter { data: frame, pos: 0, calls: 0, chunk: 1 + pattern.first().copied().unwrap_or(5000) };
+        dec.reset(&mut src).map_err(|e| class(&format!("{e:?}")))?;
+        let mut got = vec![];
+        while !dec.is_finished() {
+            dec.decode_blocks(&mut src, BlockDecodingStrategy::UptoBlocks(1)).map_err(|e| class(&format!("{e:?}")))?;
+            if let Some(v) = dec.collect() {
+                got.extend_from_slice(&v);
+            }
+        }
+        Ok(format!("data={:016x} len={} consumed={}", fnv(&got), got.len(), dec.bytes_read_from_source()))
     })));
     report(item, "streaming", catch_unwind(AssertUnwindSafe(|| {
         let mut sd = StreamingDecoder::new(Frag { data: frame, pos: 0, pattern, calls: 0 }).map_err(|e| class(&format!("{e:?}")))?;
